@@ -119,7 +119,7 @@ def build(tier, rng):
                       "env": {"PNETCDF_RELAX_COORD_BOUND": "1"}})
     # the same requests on two processes, collective, safe mode off: rank 0 takes part with a zero-length request, rank 1
     # issues the (possibly rejected) request.  A rejected rank must take part with NOTHING: its request may not be executed.
-    reqs2 = reqs[:1500] if tier == "quick" else reqs
+    reqs2 = reqs[:1500] if tier == "quick" else reqs[:25000]
     for i in range(0, len(reqs2), chunk):
         steps = fixture()
         for (v, start, count, st) in reqs2[i:i + chunk]:
